@@ -66,6 +66,9 @@ def cases(tier, seed):
         yield ('stat', v, seed)
     for v in any_label_vectors(b['any_len']):
         yield ('stat', v, seed)
+    # larger scope: hundreds / thousands of cycles of mixed length, with gaps
+    for K in (300, 2500):
+        yield ('stat-big', K, seed)
     for nb, lm in b['bins_len'].items():
         for s in enum.sequences(range(2 * nb), 1, lm):
             yield ('bins', nb, s, seed)
@@ -89,8 +92,38 @@ def decode_case(c):
     return tuple(c)
 
 
+def check_stat_big(case):
+    from emd.cycles import get_cycle_stat
+    _, K, seed = case
+    lens = 1 + (np.arange(K) * 5 + seed) % 7
+    gaps = (np.arange(K) % 4 == 1).astype(int)
+    parts = []
+    for c in range(K):
+        if gaps[c]:
+            parts.append([-1])
+        parts.append([c] * int(lens[c]))
+    lab = np.concatenate(parts).astype(int)
+    n = len(lab)
+    vals = np.cos(np.arange(n) * 0.37) * (1 + (np.arange(n) % 13))
+    viols = []
+    trans = 0
+    for name, f in (('mean', np.mean), ('max', np.max), ('sum', np.sum), ('len', len)):
+        want = np.array([f(vals[lab == c]) for c in range(K)], dtype=float)
+        for out in (None, 'samples'):
+            try:
+                got = np.asarray(get_cycle_stat(lab.copy(), vals.copy(), out=out, func=f), dtype=float)
+            except Exception as e:
+                viols.append(('stat-big:raise:%s' % type(e).__name__, '%d cycles func=%s raised %r' % (K, name, e)))
+                continue
+            trans += 1
+            exp = want if out is None else np.where(lab >= 0, want[np.maximum(lab, 0)], np.nan)
+            if got.shape != exp.shape or not np.allclose(got, exp, rtol=1e-12, atol=1e-12, equal_nan=True):
+                viols.append(('stat-big:value', '%d cycles func=%s out=%r: differs from direct per-label computation' % (K, name, out)))
+    return Outcome(cls='stat:K=3', transitions=trans, viols=viols, nontrivial=True)
+
+
 def check_case(case):
-    return {'stat': check_stat, 'bins': check_bins, 'align': check_align}[case[0]](case)
+    return {'stat': check_stat, 'bins': check_bins, 'align': check_align, 'stat-big': check_stat_big}[case[0]](case)
 
 
 class Recorder:
